@@ -59,6 +59,7 @@ class Jail:
         self.on_boundary = None           # callable(index, op, paths) or None
         self.on_after_open = None         # callable(paths) after a writing open
         self.on_sched = None              # callable(op, paths, mutating): E7
+        self.on_done = None               # callable(op, ok) after a mutating call
         self.mut_count = 0
         self.recording = True
         self.sorted_listdir = True
@@ -106,6 +107,18 @@ class Jail:
         _ACTIVE = None
 
 
+def _done(j, op, orig, a, kw):
+    """Run a mutating call and tell the E7 scheduler whether it changed the
+    disk (a failed O_EXCL create or a failed unlink changes nothing)."""
+    try:
+        res = orig(*a, **kw)
+    except BaseException:
+        j.on_done(op, False)
+        raise
+    j.on_done(op, True)
+    return res
+
+
 def _wrap2(name, op):
     orig = getattr(os, name)
     _ORIG[name] = orig
@@ -114,6 +127,8 @@ def _wrap2(name, op):
         j = _ACTIVE
         if j is not None:
             j.note(op, src, dst, mutating=True)
+            if j.on_done is not None:
+                return _done(j, op, orig, (src, dst) + a, kw)
         return orig(src, dst, *a, **kw)
     f.__name__ = name
     setattr(os, name, f)
@@ -127,6 +142,8 @@ def _wrap1(name, op, mutating):
         j = _ACTIVE
         if j is not None and not (kw.get('dir_fd') is not None):
             j.note(op, path, mutating=mutating)
+            if mutating and j.on_done is not None:
+                return _done(j, op, orig, (path,) + a, kw)
         return orig(path, *a, **kw)
     f.__name__ = name
     setattr(os, name, f)
@@ -198,7 +215,10 @@ def install():
         if j is not None and not isinstance(file, int):
             w = any(c in mode for c in 'wax+')
             rps = j.note('open-w' if w else 'open-r', file, mutating=w)
-            fh = orig_open(file, mode, *a, **kw)
+            if w and j.on_done is not None:
+                fh = _done(j, 'open-w', orig_open, (file, mode) + a, kw)
+            else:
+                fh = orig_open(file, mode, *a, **kw)
             if w and j.on_after_open is not None:
                 # a truncating / creating open changes the disk at once; the
                 # data only arrives at close: this state is a crash point
@@ -216,7 +236,10 @@ def install():
             w = bool(flags & (os.O_WRONLY | os.O_RDWR | os.O_CREAT |
                               os.O_TRUNC | os.O_APPEND))
             rps = j.note('open-w' if w else 'open-r', path, mutating=w)
-            fd = orig_os_open(path, flags, *a, **kw)
+            if w and j.on_done is not None:
+                fd = _done(j, 'open-w', orig_os_open, (path, flags) + a, kw)
+            else:
+                fd = orig_os_open(path, flags, *a, **kw)
             if w and j.on_after_open is not None:
                 j.on_after_open(rps)
             return fd
